@@ -38,7 +38,8 @@ ASSUMPTIONS = [
     'packages: VLE=(Water,Ethanol,Propanol,N2[g],Glucose[s]) for the T/P/H/S/scaling clauses (volatile subsets with / without 0.05 kmol/hr '
     'N2 and / or Glucose per ~1 kmol/hr volatile); families ALC=(Methanol,Ethanol,Propanol,1-Butanol), HC=(Hexane,Heptane,Octane,Benzene,Toluene) '
     'with Dortmund activity coefficients for the V-spec / phase-boundary / iso-fugacity clauses; ideal packages ALCi, HCi, Ai=(Water,Ethanol,Methanol), '
-    'WOi=(Water,Ethanol,Acetone,Hexane) for the Raoult clause',
+    'WOi=(Water,Ethanol,Acetone,Hexane) for the Raoult clause; ORDi = ideal (N2[g],Methanol,Glucose[s],Water,Propanol) -- package order with locked members first / in the middle, '
+    'only volatile chemicals fed; HCpr = HC chemicals with Peng-Robinson vapour fugacity coefficients (Phi=PRFugacityCoefficients) for the iso-fugacity / V-spec / boundary clauses',
     'composition patterns per subset: equimolar; one chemical (first / last) at x=0.02; one chemical (first / last) at 1-0.02(k-1) (every x >= 0.02)',
     'value grids: T {280,320,350,380,420,450} K, P {2e4,101325,3e5,1e6} Pa, V {0.03,0.25,0.5,0.75,0.97}, H and S at fractions '
     '{0,0.1,0.3,0.5,0.7,0.9,1} between the all-liquid value at my bubble point and the all-vapour value at my dew point; nothing is claimed between grid points',
@@ -429,6 +430,10 @@ IDEAL_GRIDS = [
     CompGrid('HCi', subsets(HC), ('eq', 'lo0'), ('eq', 'lo0', 'hi-1'), ('l', 'g'), _calls, call_coords,
              bases=[B(('Hexane', 'Benzene', 'Toluene'), 'eq', (), 'l', 'TV'), B(HC, 'lo0', (), 'g', 'TP')]),
 ]
+# package ORDER as a configuration axis: ORD = (N2[g], Methanol, Glucose[s], Water, Propanol); only volatile chemicals are fed
+IDEAL_GRIDS.append(
+    CompGrid('ORDi', subsets(('Methanol', 'Water', 'Propanol')), ('eq', 'lo0'), ('eq', 'lo0', 'hi-1'), ('l', 'g'), _calls, call_coords,
+             bases=[B(('Methanol', 'Water', 'Propanol'), 'eq', (), 'l', 'TP'), B(('Water', 'Propanol'), 'lo0', (), 'g', 'PV'), B(('Methanol', 'Propanol'), 'eq', (), 'l', 'TV')]))
 VLE_VOL = ('Water', 'Ethanol', 'Propanol')
 SPEC_GRID = CompGrid('VLE', subsets(VLE_VOL), ('eq', 'lo0', 'hi-1'), PATTERNS, DISTS, _calls, call_coords,
                      bases=[B(('Water', 'Ethanol'), 'eq', ('N2', 'Glucose'), 'l', 'PH'), B(VLE_VOL, 'lo0', (), 'half', 'PS'),
@@ -449,6 +454,30 @@ class MultiGrid:
 
 FAMILY = MultiGrid(FAMILY_GRIDS)
 IDEAL = MultiGrid(IDEAL_GRIDS)
+
+# ---- non-ideal vapour: Peng-Robinson fugacity coefficients (Thermo(..., Phi=PRFugacityCoefficients)) -------------------------------
+# HCpr = the HC chemicals, Dortmund gamma, PR phi.  The reference flash uses its own instance of the same Phi class.  The calls put the
+# pressure inside MY envelope ('Tp') at temperatures where the alkanes boil at 2-10 bar (phi deviates from 1 by several per cent).
+PHI_CALLS_Q = [('vle', 'Tp', 420., 0.5), ('vle', 'Tp', 450., 0.5), ('vle', 'Tp', 450., 0.05), ('vle', 'TV', 450., 0.5), ('vle', 'PV', 6e5, 0.5)]
+PHI_CALLS_T = PHI_CALLS_Q + [('vle', 'Tp', 380., 0.5), ('vle', 'Tp', 450., 0.95), ('vle', 'Tp', 420., 0.05), ('vle', 'TV', 420., 0.25), ('vle', 'PV', 1e6, 0.75),
+                             ('vle', 'PV', 3e5, 0.25), ('vle', 'PH', 6e5, 0.5), ('vle', 'TP', 450., 1e6), ('vle', 'TP', 420., 3e5)]
+def phi_configs(system, tier, seed):
+    if tier == 'quick':
+        comps = [('Hexane', 'Octane'), ('Heptane', 'Toluene'), ('Benzene', 'Toluene'), ('Hexane', 'Heptane', 'Octane'), ('Hexane', 'Benzene', 'Toluene'), ('Heptane', 'Octane', 'Toluene')]
+        pats = ('eq', 'lo0')
+    else:
+        comps = subsets(HC, 2, 3) + [('Octane',), tuple(HC)]
+        pats = ('eq', 'lo0', 'hi-1')
+    out = []
+    for c in comps:
+        for pat in pats:
+            if len(c) == 1 and pat != 'eq': continue
+            out.append(_cfg('HCpr', c, pat))
+    k = seed % len(out)
+    return out[k:] + out[:k]
+def phi_actions(system, st):
+    if st.n_calls >= 1: return []
+    return list(PHI_CALLS_Q if system.tier == 'quick' else PHI_CALLS_T)
 
 # scaling: reduced grid (three flashes per case)
 SCALE_PAIRS = ('TP', 'TV', 'PV', 'PH', 'PS', 'TH', 'TS')
@@ -523,7 +552,7 @@ def _his_actions(n_q, n_t):
 def his_oracle(system, st, action, before, obs):
     pkg = st.extra.get('pkg') or st.config[0]
     ideal = pkg.endswith('i')
-    make_oracle(reference=(pkg in ('ALC', 'HC') or ideal), ideal=ideal)(system, st, action, before, obs)
+    make_oracle(reference=(pkg in ('ALC', 'HC', 'HCpr') or ideal), ideal=ideal)(system, st, action, before, obs)
 
 # ---- reuse of one stream / of the process-global interned solver objects ------------------------------------------------------
 # Actions: vle calls at IDENTICAL specifications; 'refill' = empty the stream and fill it with another subset of the package
@@ -542,6 +571,8 @@ REUSE = {
              [(('Heptane', 'Octane', 'Toluene'), (1.5, 1.0, 1.5)), (('Hexane', 'Heptane'), (2.0, 2.0)), (('Hexane', 'Heptane', 'Octane', 'Benzene', 'Toluene'), (0.8, 0.8, 0.8, 0.8, 0.8))], 'HCi'),
     'HCi':  ((('Hexane', 'Benzene', 'Toluene'), (1.0, 1.5, 1.5)),
              [(('Heptane', 'Octane', 'Toluene'), (1.5, 1.0, 1.5)), (('Hexane', 'Heptane'), (2.0, 2.0)), (('Hexane', 'Heptane', 'Octane', 'Benzene', 'Toluene'), (0.8, 0.8, 0.8, 0.8, 0.8))], 'HC'),
+    'HCpr': ((('Hexane', 'Octane'), (2.0, 2.0)),
+             [(('Heptane', 'Toluene'), (2.0, 2.0)), (('Hexane', 'Heptane', 'Octane'), (1.5, 1.0, 1.5))], 'HC'),
     'A':    ((('Water', 'Ethanol'), (2.0, 2.0)), [(('Ethanol', 'Methanol'), (2.0, 2.0)), (('Water', 'Ethanol', 'Methanol'), (1.0, 1.0, 2.0))], 'Ai'),
     'Ai':   ((('Water', 'Ethanol'), (2.0, 2.0)), [(('Ethanol', 'Methanol'), (2.0, 2.0)), (('Water', 'Ethanol', 'Methanol'), (1.0, 1.0, 2.0))], 'A'),
 }
@@ -595,6 +626,9 @@ SYSTEMS = [
                 describe=describe_multi(MultiGrid([SPEC_GRID]))),
     FlashSystem('c04.family.grid', FAMILY.enum_configs, FAMILY.enum_actions, make_oracle(reference=True), 1, 1, describe=describe_multi(FAMILY)),
     FlashSystem('c04.ideal.grid', IDEAL.enum_configs, IDEAL.enum_actions, make_oracle(reference=True, ideal=True), 1, 1, describe=describe_multi(IDEAL)),
+    FlashSystem('c04.phi', phi_configs, phi_actions, his_oracle, 1, 1,
+                describe=dict(package='HCpr = HC chemicals with Dortmund gamma and Peng-Robinson phi', calls='PHI_CALLS_Q (quick) / PHI_CALLS_T (thorough)',
+                              compositions='quick: 3 binaries + 3 ternaries x 2 patterns; thorough: every 2- and 3-subset of HC + Octane + all five, 3 patterns')),
     FlashSystem('c04.scale', SCALE_GRIDS.enum_configs, SCALE_GRIDS.enum_actions, make_oracle(scaling=True), 1, 1,
                 describe=describe_multi(SCALE_GRIDS), nontrivial=scale_nontrivial),
     FlashSystem('c04.reuse', reuse_configs, reuse_actions, reuse_oracle, 3, 3,
